@@ -167,3 +167,21 @@ def derivatives_follow_the_current_hyperparameters(h, d):
                          ("spatial_derivatives", a.spatial_derivatives(q), b.spatial_derivatives(q)), ("build_posterior", a.build_posterior(q), b.build_posterior(q))):
         for k, (u, v) in enumerate(zip(fa, fb)):
             h.eq(f"{name}[{k}] after set_hyperparameters == fresh regressor", np.asarray(u), np.asarray(v))
+
+
+@unit("C16", quick=[dict(n=2, d=1, form="int_array"), dict(n=2, d=2, form="int_list"), dict(n=2, d=2, form="int_array")], cost=3)
+def query_points_of_any_numeric_type(h, n, d, form):
+    """query points given with an integer dtype or as lists of ints (grids from arange / mgrid, hand-written lists): the
+    derivative predictions must be those for the same points given as floats (symbolic training data and
+    hyper-parameters, concrete integer query points)"""
+    rg, cv, gp, x, y, th, pm, L, K = _gp(h, n, d, "const")
+    pts = [[0, 2][:d], [1, -3][:d]]
+    qi = np.array(pts) if form == "int_array" else [list(p) for p in pts]
+    qf = np.array(pts, dtype=float)
+    for name, fi, ff in (("gradient", gp.gradient(qi), gp.gradient(qf)), ("spatial_derivatives", gp.spatial_derivatives(qi), gp.spatial_derivatives(qf))):
+        for k, (u, v) in enumerate(zip(fi, ff)):
+            h.same(f"{name}[{k}]: same shape for integer and float query points", np.asarray(u).shape, np.asarray(v).shape)
+            h.eq(f"{name}[{k}]: integer query points == the same points as floats", np.asarray(u), np.asarray(v))
+    mu_i, sig_i = gp(qi)
+    mu_f, sig_f = gp(qf)
+    h.eq("predictive mean: integer query points == floats", mu_i, mu_f)
